@@ -9,7 +9,10 @@ Tie         : (1) the model variant (`fixes` record) is derived from the TEXT of
               compared line by line;
               (3) monitor on the Go observations: start succeeds and the delivered list is the (expiry-filtered) list
               of a PREFIX of the complete records written; second restart delivers first-restart-list ++ new records;
-              (4) replay of finding witnesses on a full in-process node (census of holds).
+              (4) replay of finding witnesses on a full in-process node (census of holds);
+              (5) values of the .dat side file that straddle the buffer of its bufio reader (bufSize*64 bytes): `big*`
+              workloads laid out against the simulated reader state (length prefix and/or payload across the chunk
+              boundary, values larger than the chunk: direct reads), cut around record / value / chunk boundaries.
 """
 import json, os, re, shutil, subprocess, tempfile, time
 import vlib
@@ -18,7 +21,9 @@ MANIFEST = {
     "engine": "coq",
     "category": "proof",
     "text": "Coq theorems over a byte-exact executable model of AofFile/LoadAofFiles (bufio refill, stale lock buffer, "
-            "two-write flush, append-mode open): for the repaired source variant every consistent crash image loads to an "
+            "two-write flush, append-mode open; ReadLockData through the bufio reader of the value file with its two "
+            "continuation loops, proved equal to 'the next 4+len bytes or EOF' for every reader state, buffer size and "
+            "value length): for the repaired source variant every consistent crash image loads to an "
             "expiry-filtered prefix of the written records and a second restart recovers prefix ++ new records; for the "
             "source as it is today the same statements are refuted by concrete byte images (proved by vm_compute, replayed "
             "on the real code) and the guarded theorem (cuts at record boundaries) is proved.",
@@ -112,6 +117,178 @@ def gen_workload(rng, n, data_p=0.35, simple=False, small=False):
     return ops
 
 
+def eff(b):
+    return b - b % 64
+
+
+def frames_of(ops):
+    """on-disk sizes (4-byte length prefix included) of the values of a workload, in .dat order"""
+    return [len(o[2]) for o in ops if o[0] == "i" and o[2] is not None and (int.from_bytes(o[1][55:57], "little") & 0x2000)]
+
+
+class DatReader:
+    """bufio.Reader over the .dat file at the level of sizes: which reads ReadLockData issues for a sequence of value
+    frames (used to LAY OUT the big workloads against the buffer boundary and to MEASURE what a workload exercises)."""
+
+    def __init__(self, D, total=1 << 60):
+        self.D, self.total, self.fpos, self.avail, self.refills = D, total, 0, 0, []
+
+    def read(self, n):
+        if self.avail == 0:
+            rem = self.total - self.fpos
+            if rem <= 0:
+                return 0, "eof"
+            if n >= self.D:
+                k = min(n, rem)
+                self.fpos += k
+                return k, "direct"
+            got = min(self.D, rem)
+            self.refills.append(self.fpos)
+            self.fpos += got
+            self.avail = got
+            k = min(n, got)
+            self.avail -= k
+            return k, "refill"
+        k = min(n, self.avail)
+        self.avail -= k
+        return k, "buf"
+
+    def value(self, frame):
+        """reads one value frame; returns the description of the reads, or None at EOF"""
+        info = {"start": self.fpos - self.avail, "frame": frame, "empty_at_start": self.avail == 0, "prefix_cont": 0,
+                "payload_cont": 0, "direct_first": False, "direct_cont": False}
+        k, how = self.read(4)
+        if how == "eof":
+            return None
+        n = k
+        while n < 4:
+            k, how = self.read(4 - n)
+            if how == "eof":
+                return None
+            info["prefix_cont"] += 1
+            n += k
+        want = frame - 4
+        if want <= 0:
+            return info
+        info["empty_before_payload"] = self.avail == 0
+        k, how = self.read(want)
+        if how == "eof":
+            return None
+        info["direct_first"] = how == "direct"
+        n = k
+        while n < want:
+            k, how = self.read(want - n)
+            if how == "eof":
+                return None
+            info["payload_cont"] += 1
+            info["direct_cont"] = info["direct_cont"] or how == "direct"
+            n += k
+        return info
+
+
+def sim_values(frames, D):
+    rd = DatReader(D, sum(frames))
+    res = []
+    for f in frames:
+        v = rd.value(f)
+        if v is None:
+            break
+        res.append(v)
+    return res, rd.refills
+
+
+def big_rec(rng, i, data):
+    key = bytes([0xB0 + rng.randrange(4)]) * 16
+    lockid = bytes([0xA0 + rng.randrange(6)]) * 8 + bytes([rng.randrange(256) for _ in range(8)])
+    flag = 0x2000 if data is not None else 0
+    if rng.random() < 0.15:
+        eflag, et, ct = 0x0100, 5, NOW - 700            # expired: filtered out of the delivered list, its value is still read
+    else:
+        eflag, et, ct = 0x4000, rng.choice([0, 0xffff]), NOW - rng.randrange(100)
+    return mkrec(rng, 1 if rng.random() < 0.7 else 2, key, lockid, flag=flag, eflag=eflag, et=et, ct=ct,
+                 rcount=rng.choice([0, 0, 1]), count=rng.choice([0, 1, 5]), off=i + 1)
+
+
+def gen_big_workload(rng, rbuf, chunks=3.2, flush_p=0.3, nodata_p=0.3):
+    """values laid out against the buffer of the .dat reader (D = rbuf*64 bytes): the generator follows the simulated
+    reader and places the END of a value (= the start of the next one) within -8..+8 bytes of the end of the chunk that is
+    buffered at that moment, uses values of exactly D (+-8) bytes, values larger than D (direct reads) and several
+    consecutive large values, mixed with small ones, records without data and flushes."""
+    D = eff(rbuf) * 64
+    rd = DatReader(D)
+    ops, total, i = [], 0, 0
+    while total < chunks * D and i < 40:
+        if rng.random() < nodata_p:
+            ops.append(("i", big_rec(rng, i, None), None))
+            i += 1
+        pos = rd.fpos - rd.avail
+        chunk_end = rd.fpos if rd.avail > 0 else pos + D      # an empty buffer is refilled at the next prefix read
+        r = rng.random()
+        if r < 0.46:
+            frame = chunk_end + rng.choice([-8, -5, -4, -3, -3, -2, -2, -1, -1, 0, 0, 1, 2, 3, 4, 5, 8]) - pos
+            if frame < 6:
+                frame += D
+        elif r < 0.56:
+            frame = 6 + rng.choice([0, 1, 3, 17, 40])
+        elif r < 0.70:
+            frame = 6 + rng.randrange(1500, 3001)
+        elif r < 0.82:
+            frame = D + rng.randrange(-8, 9)
+        else:
+            frame = D + rng.randrange(100, D + 200)
+        data = mkval(bytes([rng.randrange(256) for _ in range(frame - 6)]))
+        ops.append(("i", big_rec(rng, i, data), data))
+        i += 1
+        total += frame
+        rd.value(frame)
+        if rng.random() < flush_p:
+            ops.append(("f",))
+    return ops
+
+
+def directed_big_workload():
+    """deterministic: reader buffer 64 (chunk 4096).  Two 3000-byte values (the second one across offset 4096: the layout of
+    the demonstration of a wrong continuation-read offset), then a value that ends 2 bytes before the end of the chunk
+    buffered at that moment (the next LENGTH PREFIX straddles), a record without data, a value ending exactly at the
+    chunk end, a value larger than the chunk read on an EMPTY buffer (direct first read), a small one, a value larger
+    than the chunk read on a NON-empty buffer (direct continuation read), a final small value."""
+    import random
+    rng = random.Random(0xC08)
+    D = 4096
+    rd = DatReader(D)
+    ops, i = [], 0
+
+    def add(frame, flush=False):
+        nonlocal i
+        data = mkval(bytes([(7 * j + 13 * i + 1) % 251 for j in range(frame - 6)]))
+        lockid = bytes([0xA0 + i]) * 16
+        ops.append(("i", mkrec(None, 1, bytes([0xB0 + i % 4]) * 16, lockid, flag=0x2000, off=i + 1), data))
+        i += 1
+        rd.value(frame)
+        if flush:
+            ops.append(("f",))
+
+    def to_chunk_end(delta):
+        pos = rd.fpos - rd.avail
+        end = rd.fpos if rd.avail > 0 else pos + D
+        f = end + delta - pos
+        return f if f >= 6 else f + D
+
+    add(3006)
+    add(3006, flush=True)
+    add(to_chunk_end(-2))
+    ops.append(("i", mkrec(None, 1, bytes([0xB7]) * 16, bytes([0xAF]) * 16, off=40), None))
+    add(40)                               # its length prefix straddles
+    add(to_chunk_end(0), flush=True)      # ends exactly at the chunk end: the next value starts on an empty buffer...
+    add(10)                               # ... refill; small
+    add(to_chunk_end(-4))                 # the next prefix ends exactly at the chunk end
+    add(D + 300)                          # payload read on an EMPTY buffer, >= D: direct read
+    add(6 + 17)
+    add(2 * D + 100, flush=True)          # non-empty buffer, remainder >= D: direct continuation read
+    add(6 + 3)
+    return ops
+
+
 def expired(rec, now):
     ct = int.from_bytes(rec[11:19], "little")
     et = int.from_bytes(rec[57:59], "little")
@@ -150,9 +327,11 @@ def canon(line):
     return re.sub(r"err:open_\S+", "err:nofile", line)
 
 
-def consistent_cuts(sizes):
+def consistent_cuts(sizes, near=None, rng=None, sample=0):
     """sizes: [(a,d)] after open and after every op (and close). Within one op the append file is written first, then the
-    value file.  Returns the list of (a, d, kind) crash images, kind in {'aof','dat'}; includes the header write."""
+    value file.  Returns the list of (a, d, kind) crash images, kind in {'aof','dat'}; includes the header write.
+    near = (aof_marks, dat_marks, radius): keep only the cuts within `radius` bytes of a mark (op boundaries are always
+    marks), plus `sample` random ones per file (big workloads: an exhaustive cut of 12 KB values is not affordable)."""
     cuts = [(a, 0, "aof") for a in range(0, 13)]
     pa, pd = sizes[0]
     for (a, d) in sizes[1:]:
@@ -161,7 +340,43 @@ def consistent_cuts(sizes):
         for y in range(pd + 1, d + 1):
             cuts.append((a, y, "dat"))
         pa, pd = a, d
-    return cuts
+    if near is None:
+        return cuts
+    am, dm, rad = near
+    am = set(am) | set(a for a, _ in sizes)
+    dm = set(dm) | set(d for _, d in sizes)
+    amn = set(m + e for m in am for e in range(-rad, rad + 1))
+    dmn = set(m + e for m in dm for e in range(-rad, rad + 1))
+    keep, rest = [], []
+    for c in cuts:
+        if c[0] < 13 and c[2] == "aof":
+            keep.append(c)
+        elif (c[2] == "aof" and c[0] in amn) or (c[2] == "dat" and c[1] in dmn):
+            keep.append(c)
+        else:
+            rest.append(c)
+    if rng is not None and sample and rest:
+        ra = [c for c in rest if c[2] == "aof"]
+        rdd = [c for c in rest if c[2] == "dat"]
+        extra = set(rng.sample(ra, min(sample, len(ra))) + rng.sample(rdd, min(sample, len(rdd))))
+        keep = [c for c in cuts if c in extra or c in set(keep)]
+    return keep
+
+
+def big_marks(p):
+    """marks for the cut selection of a big workload: record boundaries of the append file; value boundaries (and the
+    end of every length prefix), multiples of the reader chunk and the simulated refill offsets of the .dat file"""
+    D = eff(p["rbuf"]) * 64
+    frames = frames_of(p["ops"])
+    am = [12 + 64 * k for k in range(len([o for o in p["ops"] if o[0] == "i"]) + 1)]
+    dm, off = [], 0
+    for f in frames:
+        dm += [off, off + 4]
+        off += f
+    dm.append(off)
+    dm += [k * D for k in range(1, off // D + 2)]
+    dm += sim_values(frames, D)[1]
+    return am, dm
 
 
 def run(ctx):
@@ -175,7 +390,9 @@ def run(ctx):
     theorems = ["C08_writer_crash_shape", "C08_crash_any_byte_repaired", "C08_first_restart_repaired",
                 "C08_second_restart_repaired", "C08_second_restart_writer", "C08_first_restart_today_record_boundary",
                 "C08_refuted_torn_tail", "C08_refuted_straddle_start_fails", "C08_refuted_torn_header_start_fails",
-                "C08_refuted_misaligned_append", "C08_refuted_value_stolen"]
+                "C08_refuted_misaligned_append", "C08_refuted_value_stolen",
+                "C08_value_straddles_buffer", "C08_value_reader_is_stream_reader", "C08_value_truncated_is_eof",
+                "C08_executable_caps_unobservable"]
     for th in theorems:
         present = th in ctx.assumption_report
         ctx.obligation(th, ok and present, "" if (ok and present) else getattr(ctx, "coq_failure", "not compiled"))
@@ -209,6 +426,13 @@ def run(ctx):
     for i in range(6 if thorough else 1):
         workloads.append((4096, 4096, gen_workload(rng, 66 + rng.randrange(4), data_p=0.05), "long%d" % i))
 
+    # values that straddle the buffer of the .dat reader (rbuf*64 bytes): directed layout + random layouts that follow
+    # the simulated reader; writer buffers 64/128 (value buffer 4096/8192: larger values are written directly) and 4096
+    workloads.append((64, 64, directed_big_workload(), "big-directed"))
+    for i in range(24 if thorough else 3):
+        rbuf = 128 if (i % 3 == 2) else 64
+        workloads.append((rng.choice([64, 128, 4096]), rbuf, gen_big_workload(rng, rbuf, chunks=(2.1 if rbuf == 128 else rng.choice([2.2, 3.2]))), "big%d" % i))
+
     # ---- 4. script
     lines = [fxline]
     plan = []   # per workload: dict
@@ -232,10 +456,12 @@ def run(ctx):
         d = seg[-1].split()
         p["aof"] = bytes.fromhex(d[1]) if d[1] not in ("e", "-") else b""
         p["dat"] = bytes.fromhex(d[2]) if d[2] not in ("e", "-") else b""
+        p["big"] = len(p["dat"]) > 2000
 
     # pass 2: full script with cuts and second restarts
     lines = [fxline]
     expect = []     # (kind, workload index, info) per output line
+    stats_garbage = []
     for wi, p in enumerate(plan):
         lines.append("new %d" % p["wbuf"])
         expect.append(("sz", wi, None))
@@ -246,7 +472,11 @@ def run(ctx):
         expect.append(("sz", wi, None))
         lines.append("mdump")
         expect.append(("dump", wi, None))
-        cuts = consistent_cuts(p["sizes"])
+        if p["big"]:
+            am, dm = big_marks(p)
+            cuts = consistent_cuts(p["sizes"], near=(am, dm, 2), rng=rng, sample=(40 if thorough else 10))
+        else:
+            cuts = consistent_cuts(p["sizes"])
         p["cuts"] = cuts
         for (a, d, kind) in cuts:
             lines.append("image %d %d" % (a, d))
@@ -261,12 +491,35 @@ def run(ctx):
             expect.append(("ok", wi, None))
             lines.append("load %d %d" % (NOW, rng.choice([64, 128, 4096])))
             expect.append(("loadx", wi, (a, d, "any")))
+        # a length prefix of the value file replaced by a length that reaches beyond the end of the file (garbage lengths up
+        # to 2^32-1: the model caps the requested length, the code allocates it): differential only
+        if p["big"] or (p["dat"] and rng.random() < 0.2):
+            frames = frames_of(p["ops"])
+            if len(p["dat"]) == sum(frames) and frames:
+                j = rng.randrange(len(frames))
+                offj = sum(frames[:j])
+                rem = len(p["dat"]) - offj - 4
+                glens = [rem + 1, rem + rng.randrange(2, 5000), 1 << 24]
+                if p["name"] == "big-directed":
+                    # a 2..4 GiB allocation costs the real code seconds (page zeroing): only in the thorough tier
+                    glens += [(1 << 31) - 1, (1 << 32) - 1] if thorough else [(1 << 28) + 5]
+                for gl in glens:
+                    bad = p["dat"][:offj] + gl.to_bytes(4, "little") + p["dat"][offj + 4:]
+                    lines.append("image %d %d" % (len(p["aof"]), len(p["dat"])))
+                    expect.append(("ok", wi, None))
+                    lines.append("put append.aof.1.dat %s" % hx(bad))
+                    expect.append(("ok", wi, None))
+                    lines.append("load %d %d" % (NOW, p["rbuf"]))
+                    expect.append(("loadx", wi, (len(p["aof"]), len(p["dat"]), "garbage-length")))
+                    stats_garbage.append(gl)
         # second restart on a sample of cuts: all residue kinds
         sample = [c for c in cuts if c[0] >= 12]
         rng.shuffle(sample)
         sample = sample[:(30 if thorough else 10)]
         if p["name"].startswith("long"):
             sample = sample[:3]
+        if p["big"]:
+            sample = sample[:(6 if thorough else 2)]
         # a crash inside the 12-byte header of a new file: the append-mode Open must start the file afresh
         torn_hdr = [c for c in cuts if 0 < c[0] < 12]
         sample += torn_hdr if (thorough or wi < 3) else torn_hdr[:2]
@@ -307,11 +560,94 @@ def run(ctx):
     load1 = {}
     witnesses = {}
 
+    def written_of(ops):
+        return [(b"\x3e\x00" + o[1][2:], o[2] if (int.from_bytes(o[1][55:57], "little") & 0x2000) else None) for o in ops if o[0] == "i"]
+
     def written_items(p):
-        return [(b"\x3e\x00" + o[1][2:], o[2] if (int.from_bytes(o[1][55:57], "little") & 0x2000) else None) for o in p["ops"] if o[0] == "i"]
+        return written_of(p["ops"])
 
     def live(items):
         return [item_str(r, v) for (r, v) in items if not expired(r, NOW)]
+
+    def wl_info(ops, rbuf):
+        """what a load of (a crash image of) this workload may deliver: the live items in order, with the index in the
+        .dat file of every value and the simulated reads of the .dat reader"""
+        W = written_of(ops)
+        strs = [(None if expired(r, NOW) else item_str(r, v)) for (r, v) in W]
+        L = [x for x in strs if x is not None]
+        pref = [0]
+        for x in strs:
+            pref.append(pref[-1] + (x is not None))
+        didx, c = [], 0
+        for (r, v), x in zip(W, strs):
+            if x is not None:
+                didx.append(c if v is not None else None)
+            if v is not None:
+                c += 1
+        sim, refills = sim_values(frames_of(ops), eff(rbuf) * 64)
+        return {"W": W, "L": L, "Lr": [x.split(":", 1)[0] for x in L], "pref": pref, "didx": didx, "sim": sim, "refills": refills}
+
+    def prefix_k(info, items):
+        n = len(items)
+        if n <= len(info["L"]) and items == info["L"][:n]:
+            return info["pref"].index(n)
+        return None
+
+    def value_corruption(info, items):
+        """the delivered RECORDS are a live prefix of the written ones but a delivered VALUE differs from the written one"""
+        n = len(items)
+        if n == 0 or n > len(info["L"]) or [x.split(":", 1)[0] for x in items] != info["Lr"][:n]:
+            return None
+        for j in range(n):
+            if items[j] != info["L"][j]:
+                got, want = items[j].split(":", 1)[1], info["L"][j].split(":", 1)[1]
+                k = 0
+                while k < min(len(got), len(want)) and got[k] == want[k]:
+                    k += 1
+                di = info["didx"][j]
+                cont = di is not None and any(v["payload_cont"] or v["prefix_cont"] for v in info["sim"][:di + 1])
+                return {"item": j, "value_index_in_dat": di, "first_differing_byte": k // 2,
+                        "delivered_bytes": len(got) // 2, "written_bytes": len(want) // 2,
+                        "delivered_around": got[max(0, k - 16):k + 24], "written_around": want[max(0, k - 16):k + 24],
+                        "needed_continuation_read": bool(cont),
+                        "reads_of_that_value": info["sim"][di] if (di is not None and di < len(info["sim"])) else None}
+        return None
+
+    def probe(ops, wbuf, rbuf):
+        """write the workload completely with the real AofFile, load the complete files: the value corruption, if any"""
+        sc = ["new %d" % wbuf] + ["w %s %s" % (hx(o[1]), hx(o[2])) if o[0] == "i" else "f" for o in ops]
+        sc += ["close", "imagefull", "load %d %d" % (NOW, rbuf)]
+        try:
+            rc, out, err = run_script(aofh, ["file"], "\n".join(sc) + "\n", timeout=60)
+        except subprocess.TimeoutExpired:
+            return None, ""
+        if rc != 0:
+            return None, ""
+        line = canon(out.strip().split("\n")[-1])
+        t = line.split()
+        if len(t) < 3 or t[1] != "ok":
+            return None, line
+        return value_corruption(wl_info(ops, rbuf), t[3:]), line
+
+    def shrink_value_corruption(p, sig):
+        """smaller failing input for a corrupted value: the complete files (no cut) if they show it too, then every op
+        that is not needed is dropped (one pass, from the end)"""
+        ops = list(p["ops"])
+        vc, line = probe(ops, p["wbuf"], p["rbuf"])
+        if vc is None:
+            return None
+        cls = vc["needed_continuation_read"]
+        i, tries = len(ops) - 1, 0
+        while i >= 0 and tries < 80:
+            cand = ops[:i] + ops[i + 1:]
+            tries += 1
+            v2, l2 = probe(cand, p["wbuf"], p["rbuf"])
+            if v2 is not None and v2["needed_continuation_read"] == cls:
+                ops, vc, line = cand, v2, l2
+            i -= 1
+        return {"wbuf": p["wbuf"], "rbuf": p["rbuf"], "now": NOW, "cut": "none: both files complete (writer closed)",
+                "ops": [["i", hx(o[1]), hx(o[2])] if o[0] == "i" else ["f"] for o in ops],
+                "value_frames_in_dat": frames_of(ops), "first_difference": vc, "observed": line[:1500], "harness_runs": tries + 1}
 
     def note(sig, what, replay):
         stats["monitor_violations"][sig] = stats["monitor_violations"].get(sig, 0) + 1
@@ -336,22 +672,28 @@ def run(ctx):
         a, d, ck = info[0], info[1], info[2]
         if kind == "loadx":
             continue
-        W = written_items(p)
+        if "info" not in p:
+            p["info"] = wl_info(p["ops"], p["rbuf"])
+        winfo = p["info"]
+        W = winfo["W"]
         base = {"workload": p["name"], "wbuf": p["wbuf"], "rbuf": p["rbuf"], "now": NOW,
                 "ops": [["i", hx(o[1]), hx(o[2])] if o[0] == "i" else ["f"] for o in p["ops"]],
                 "cut": {"aof": a, "dat": d}, "observed": g[:2000]}
         res = (a - 12) % 64 if a >= 12 else -(12 - a)
         if kind in ("load1", "load2a"):
+            if kind == "load1" and p["big"]:
+                fr = frames_of(p["ops"])
+                ends = [sum(fr[:k + 1]) for k in range(len(fr))]
+                nv = len([e for e in ends if e <= d])
+                nrec = (a - 12) // 64 if a >= 12 else 0
+                nr = len([1 for (r_, v_) in W[:nrec] if v_ is not None])
+                if any(v["payload_cont"] or v["prefix_cont"] for v in winfo["sim"][:min(nv, nr)]):
+                    stats["straddle_loads"] = stats.get("straddle_loads", 0) + 1
             if kind == "load1":
                 stats["first_restart_cuts"] += 1
                 stats["residues"].add(res)
                 distinct.add((p["name"], res, ck, status, len(items)))
-            good = None
-            if status == "ok":
-                for k in range(len(W) + 1):
-                    if live(W[:k]) == items:
-                        good = k
-                        break
+            good = prefix_k(winfo, items) if status == "ok" else None
             load1[(wi, a, d)] = (status, items, good)
             if status != "ok":
                 if a < 12:
@@ -363,12 +705,23 @@ def run(ctx):
                          dict(base, expected="start succeeds with a record prefix"))
                 else:
                     note("start-fails:" + status, "next start fails: " + status, dict(base, expected="start succeeds"))
+            elif good is None and value_corruption(winfo, items) is not None:
+                vc = value_corruption(winfo, items)
+                sig = "value-corrupted:continuation-read" if vc["needed_continuation_read"] else "value-corrupted:other"
+                if sig not in witnesses:
+                    small = shrink_value_corruption(p, sig)
+                    note(sig, "a value of the .dat side file is delivered to the lock engine with other bytes than were written "
+                              "(records are a prefix of the written ones; item %d differs from byte %d%s)"
+                         % (vc["item"], vc["first_differing_byte"],
+                            "; the value was not wholly inside the buffered chunk of the value reader: continuation read" if vc["needed_continuation_read"] else ""),
+                         dict(base, expected="a prefix of the %d written records with their values byte for byte" % len(W),
+                              first_difference=vc, shrunk=small))
+                else:
+                    note(sig, "", None)
+                stats["value_corruptions"] = stats.get("value_corruptions", 0) + 1
             elif good is None:
                 # classify
-                pref = None
-                for k in range(len(W) + 1):
-                    if live(W[:k]) == items[:-1]:
-                        pref = k
+                pref = prefix_k(winfo, items[:-1])
                 if pref is not None and res > 0:
                     note("torn-tail-record-padded-from-stale-buffer",
                          "a torn final record is delivered to the lock engine, padded with bytes of the previous record (ReadLock returns nil when its second read fails)",
@@ -401,6 +754,31 @@ def run(ctx):
                     else:
                         note("second-restart:other", "second restart does not deliver first-restart list ++ new records (%s)" % status, b2)
 
+    # ---- measured distribution of the value reads (simulated bufio reader of the .dat file with the workload's rbuf)
+    vstats = {"values": 0, "max_value_bytes_on_disk": 0, "payload_straddles_buffered_chunk": 0, "length_prefix_straddles_buffered_chunk": 0,
+              "direct_first_payload_read_on_empty_buffer": 0, "direct_continuation_read": 0, "value_starts_on_empty_buffer": 0,
+              "values_of_at_least_one_chunk": 0, "values_larger_than_writer_value_buffer": 0, "big_workloads": 0,
+              "big_workload_first_restart_loads": 0, "first_restart_loads_reading_a_straddling_value": stats.get("straddle_loads", 0),
+              "garbage_length_images": len(stats_garbage), "max_garbage_length": max(stats_garbage or [0]),
+              "dat_bytes_max": 0, "chunk_bytes": sorted(set(eff(p["rbuf"]) * 64 for p in plan if p["big"]))}
+    for p in plan:
+        if "info" not in p:
+            p["info"] = wl_info(p["ops"], p["rbuf"])
+        D = eff(p["rbuf"]) * 64
+        vstats["big_workloads"] += 1 if p["big"] else 0
+        vstats["big_workload_first_restart_loads"] += len(p["cuts"]) if p["big"] else 0
+        vstats["dat_bytes_max"] = max(vstats["dat_bytes_max"], len(p["dat"]))
+        for v in p["info"]["sim"]:
+            vstats["values"] += 1
+            vstats["max_value_bytes_on_disk"] = max(vstats["max_value_bytes_on_disk"], v["frame"])
+            vstats["payload_straddles_buffered_chunk"] += 1 if v["payload_cont"] else 0
+            vstats["length_prefix_straddles_buffered_chunk"] += 1 if v["prefix_cont"] else 0
+            vstats["direct_first_payload_read_on_empty_buffer"] += 1 if v["direct_first"] else 0
+            vstats["direct_continuation_read"] += 1 if v["direct_cont"] else 0
+            vstats["value_starts_on_empty_buffer"] += 1 if v["empty_at_start"] else 0
+            vstats["values_of_at_least_one_chunk"] += 1 if v["frame"] - 4 >= D else 0
+            vstats["values_larger_than_writer_value_buffer"] += 1 if v["frame"] > eff(p["wbuf"]) * 64 else 0
+
     if mism:
         ctx.obligation("model = implementation on every generated crash image (line-by-line)", False, json.dumps(mism)[:1500])
     else:
@@ -431,6 +809,7 @@ def run(ctx):
         "residues_covered": len(stats["residues"]),
         "load_outcomes": stats["outcomes"],
         "monitor_hits": stats["monitor_violations"],
+        "value_reader": vstats,
         "model_impl_mismatches": stats["mismatch"],
         "source_switches": sw,
         "instance_replays": inst,
@@ -440,7 +819,8 @@ def run(ctx):
         "source switches (rl_nerr, rl_short, hdr, trunc) read from the text of server/aof.go by regular expressions; cross-checked by the line-by-line differential run",
         "extraction: ExtrOcamlBasic only; ocaml/aof/driver.ml (hex/nat conversions, command loop)",
         "OS model: file = byte list; regular-file read returns min(len, remaining); a write may be cut at any byte; completed writes are not reordered; rename/remove atomic; fsync not modelled",
-        "ReadLockData modelled at stream level (both reads loop until complete or EOF); bufio modelled exactly for the record file",
+        "ReadLockData modelled byte-exactly through the bufio reader of the value file (bufSize*64 bytes), including both continuation loops with explicit write offsets; the stream-level reader ('next 4+len bytes or EOF') is the PROVED specification (C08_value_reader_is_stream_reader, every reader state and value length); the two caps of the executable model (requested length, buffer size: unary nat) are proved unobservable (C08_executable_caps_unobservable); allocation of a garbage dataLen+4 buffer (up to 4 GiB) not modelled",
+        "bufio.Reader.Read modelled exactly for regular files (hand model AofFile.rd_read: buffered part only / one refill / direct read when len(p) >= buffer size), tied to the code by the differential run only",
         "hand-written 64-byte record layout coq/Aof/AofRec.v (to be replaced by the generated codec)",
         "AofChannel hand-off (LoadLock -> HandleLoad) modelled as an order-preserving list; lock engine replay not part of C08 (see C07)",
     ]
@@ -462,12 +842,12 @@ def instance_replays(ctx, aofh, sw, witnesses):
         hdr = b"SLOCKAOF\x01\x00\x00\x00"
         full = hdr + b"".join(recs)
 
-        def start(name, aof, dat=b"", ops=()):
+        def start(name, aof, dat=b"", ops=(), bufsize=4096):
             d = os.path.join(base, name)
             os.makedirs(os.path.join(d, "data"))
             open(os.path.join(d, "data", "append.aof.1"), "wb").write(aof)
             open(os.path.join(d, "data", "append.aof.1.dat"), "wb").write(dat)
-            p = subprocess.run([aofh, "inst", os.path.join(d, "data"), os.path.join(d, "log"), "4096"] + list(ops),
+            p = subprocess.run([aofh, "inst", os.path.join(d, "data"), os.path.join(d, "log"), str(bufsize)] + list(ops),
                                stdout=subprocess.PIPE, stderr=subprocess.STDOUT, timeout=60)
             return p.returncode, p.stdout.decode()
 
@@ -499,6 +879,31 @@ def instance_replays(ctx, aofh, sw, witnesses):
         if "init ok" not in out:
             ctx.violation("start-fails:torn-header", "a node does not start on an append file cut inside its 12-byte header",
                           {"image_hex": full[:5].hex(), "output": out[-1500:]}, True)
+        # (iv) two persisted holds with 3000-byte values, aof_file_buffer_size 64: the value reader buffers 4096 bytes, the
+        #      second value lies across offset 4096 (continuation read of ReadLockData); the node must hold both values
+        vrecs = [mkrec(None, 1, k1, l1, flag=0x2000, eflag=0x4100, et=0xffff, ct=now, off=1),
+                 mkrec(None, 1, k2, l2, flag=0x2000, eflag=0x4100, et=0xffff, ct=now, off=2)]
+        vals = [mkval(bytes([97 + (j * 7 + i * 3) % 26 for j in range(3000)])) for i in range(2)]
+        rc, out = start("bigvalues", hdr + b"".join(vrecs), b"".join(vals), bufsize=64)
+        got = dict((k, v) for (k, v) in re.findall(r"hold db=0 key=(\w+) lockid=\w+ depth=1 .*? val=(\S+)", out))
+        okv = "init ok" in out and got == {k1.hex(): vals[0].hex(), k2.hex(): vals[1].hex()}
+        res.append({"case": "two holds with 3000-byte values, buffer size 64 (second value across the 4096-byte chunk of the value reader)",
+                    "ok": okv, "init_ok": "init ok" in out, "holds": len(got)})
+        if "init ok" not in out:
+            ctx.violation("instance:big-values:start-fails", "a node does not start on two complete records with 3000-byte values (aof_file_buffer_size 64)",
+                          {"aof_hex": (hdr + b"".join(vrecs)).hex(), "dat_frames": [len(v) for v in vals], "output": out[-1500:]}, True)
+        elif not okv:
+            bad = [k for k in (k1.hex(), k2.hex()) if got.get(k) != dict(zip((k1.hex(), k2.hex()), (vals[0].hex(), vals[1].hex())))[k]]
+            diff = {}
+            for k, v in zip((k1.hex(), k2.hex()), vals):
+                g = got.get(k)
+                if g is not None and g != v.hex():
+                    j = next((x for x in range(min(len(g), len(v.hex()))) if g[x] != v.hex()[x]), min(len(g), len(v.hex())))
+                    diff[k] = {"first_differing_byte": j // 2, "held_bytes": len(g) // 2, "written_bytes": len(v), "held_tail": g[-16:], "written_tail": v.hex()[-16:]}
+            ctx.violation("value-corrupted:continuation-read",
+                          "a node started (aof_file_buffer_size 64) on two complete records with 3000-byte values holds a value with other bytes than were persisted (keys %s)" % bad,
+                          {"aof_hex": (hdr + b"".join(vrecs)).hex(), "dat": "two frames of 4+2+3000 bytes: mkval(bytes(97 + (j*7 + i*3) % 26 for j in range(3000))), i = 0, 1",
+                           "aof_file_buffer_size": 64, "differences": diff, "census": [l[:200] for l in out.split("\n") if l.startswith("hold")]}, True)
     finally:
         shutil.rmtree(base, ignore_errors=True)
     return res
